@@ -1,7 +1,7 @@
 (* C05 — lifecycle calls return and episodes are isolated.  Statements only; proofs in Lifecycle.v *)
 From Coq Require Import List Arith Bool.
 From Rex Require Import Lifecycle.
-From Rex Require Handshake.
+From Rex Require Handshake EventLoop.
 Import ListNotations.
 
 (* stop() of the (repaired) protocol: from every state satisfying the invariant — any number of queued tasks, any
@@ -46,3 +46,14 @@ Proof. exact Handshake.two_steps_run. Qed.
 (* publishing the observation before queuing the action future (the reordered variant) can raise IndexError: machine-checked witness *)
 Theorem C05_publish_first_witness : exists s, Handshake.steps false Handshake.init s /\ Handshake.up s = Handshake.UIndexError.
 Proof. exact Handshake.publish_first_refuted. Qed.
+
+(* liveness of the event-triggered connection handlers: with the re-check after each processed entry no enabled entry is left behind when the
+   events stop, whatever the sequence of events - the code then fires exactly when the guard-based actor model M1 would; nothing is lost or reordered *)
+Theorem C05_recheck_leaves_nothing_enabled es : EventLoop.enabled (EventLoop.run true es) = false.
+Proof. exact (EventLoop.recheck_leaves_nothing_enabled es). Qed.
+Theorem C05_recheck_preserves_order es : EventLoop.done_ (EventLoop.run true es) ++ EventLoop.pending (EventLoop.run true es) = EventLoop.expectations es.
+Proof. exact (EventLoop.recheck_preserves_order es). Qed.
+Print Assumptions C05_recheck_leaves_nothing_enabled.
+(* one entry per event (the code as pinned) leaves an enabled entry behind: [expect 2; expect 0; message; message] *)
+Theorem C05_one_per_event_witness : exists es, EventLoop.enabled (EventLoop.run false es) = true.
+Proof. exact EventLoop.one_per_event_refuted. Qed.
